@@ -102,3 +102,87 @@ pub assume_specification<T> [std::option::Option::<T>::or] (a: std::option::Opti
 pub assume_specification<T, U, DF: FnOnce() -> U, F: FnOnce(T) -> U> [std::option::Option::<T>::map_or_else] (o: std::option::Option<T>, default: DF, f: F) -> (r: U)
     requires match o { Some(x) => f.requires((x,)), None => default.requires(()) },
     ensures match o { Some(x) => f.ensures((x,), r), None => default.ensures((), r) };
+
+// ---------------------------------------------------------------------------------------------
+// std::collections::HashMap<K, V> as used by read/take: new, entry(k).and_modify(f).or_insert(v),
+// iteration by reference (every entry exactly once, arbitrary order).  view: Map<K, V>.
+// `entry` borrows the map for 'a; `fin()` is the (prophesied) content of the map when that borrow
+// ends, `cur()` the value currently in the entry (None = vacant).
+// ---------------------------------------------------------------------------------------------
+#[verifier::external_body]
+#[verifier::reject_recursive_types(K)]
+#[verifier::reject_recursive_types(V)]
+pub struct HashMap<K, V> { inner: std::collections::HashMap<K, V> }
+impl<K, V> View for HashMap<K, V> { type V = Map<K, V>; uninterp spec fn view(&self) -> Map<K, V>; }
+
+#[verifier::external_body]
+#[verifier::reject_recursive_types(K)]
+#[verifier::reject_recursive_types(V)]
+pub struct HEntry<'a, K, V> { inner: std::collections::hash_map::Entry<'a, K, V> }
+impl<'a, K, V> HEntry<'a, K, V> {
+    pub uninterp spec fn key(&self) -> K;
+    pub uninterp spec fn base(&self) -> Map<K, V>;
+    pub uninterp spec fn cur(&self) -> Option<V>;
+    pub uninterp spec fn fin(&self) -> Map<K, V>;
+
+    // "Provides in-place mutable access to an occupied entry before any potential inserts into the map."
+    #[verifier::external_body]
+    pub fn and_modify<F: FnOnce(&mut V)>(self, f: F) -> (r: Self)
+        requires self.cur() matches Some(x) ==> forall|v: &mut V| *v == x ==> f.requires((v,)),
+        ensures
+            r.key() == self.key(), r.base() == self.base(), r.fin() == self.fin(),
+            match self.cur() {
+                None => r.cur() is None,
+                Some(x) => exists|v: &mut V| *v == x && #[trigger] f.ensures((v,), ()) && r.cur() == Some(*final(v)),
+            },
+    { unimplemented!() }
+
+    // "Ensures a value is in the entry by inserting the default if empty, and returns a mutable
+    //  reference to the value in the entry."
+    #[verifier::external_body]
+    pub fn or_insert(self, default: V) -> (r: &'a mut V)
+        ensures
+            *r == (match self.cur() { Some(x) => x, None => default }),
+            self.fin() == self.base().insert(self.key(), *final(r)),
+    { unimplemented!() }
+}
+
+#[verifier::external_body]
+#[verifier::reject_recursive_types(K)]
+#[verifier::reject_recursive_types(V)]
+pub struct HIter<'a, K, V> { inner: std::collections::hash_map::Iter<'a, K, V> }
+impl<'a, K, V> HIter<'a, K, V> {
+    // entries still to come
+    pub uninterp spec fn rem(&self) -> Seq<(K, V)>;
+    #[verifier::external_body]
+    pub fn next(&mut self) -> (r: Option<(&'a K, &'a V)>)
+        ensures
+            match r {
+                None => old(self).rem().len() == 0 && final(self).rem() == old(self).rem(),
+                Some((k, v)) => old(self).rem().len() > 0 && (*k, *v) == old(self).rem()[0] && final(self).rem() == old(self).rem().skip(1),
+            }
+    { unimplemented!() }
+}
+
+impl<K, V> HashMap<K, V> {
+    #[verifier::external_body]
+    pub fn new() -> (r: Self) ensures r@ == Map::<K, V>::empty() { unimplemented!() }
+
+    #[verifier::external_body]
+    pub fn entry<'a>(&'a mut self, key: K) -> (e: HEntry<'a, K, V>)
+        ensures
+            e.key() == key, e.base() == old(self)@,
+            e.cur() == (if old(self)@.contains_key(key) { Some(old(self)@[key]) } else { None::<V> }),
+            final(self)@ == e.fin(),
+    { unimplemented!() }
+
+    // `impl IntoIterator for &HashMap` (what `for (k, v) in &map` calls, R3): every entry exactly
+    // once, in an arbitrary order
+    #[verifier::external_body]
+    pub fn into_iter<'a>(&'a self) -> (it: HIter<'a, K, V>)
+        ensures
+            forall|i: int, j: int| 0 <= i < j < it.rem().len() ==> (#[trigger] it.rem()[i]).0 != (#[trigger] it.rem()[j]).0,
+            forall|i: int| 0 <= i < it.rem().len() ==> self@.contains_key((#[trigger] it.rem()[i]).0) && self@[it.rem()[i].0] == it.rem()[i].1,
+            forall|k: K| #[trigger] self@.contains_key(k) ==> exists|i: int| 0 <= i < it.rem().len() && it.rem()[i].0 == k,
+    { unimplemented!() }
+}
